@@ -435,7 +435,7 @@ func explore(e *executor, job *Job) {
 				hashes[out.Res.Hash] = struct{}{}
 			}
 			if os.Getenv("CUESIM_DEBUGHASH") != "" {
-				fmt.Fprintf(os.Stderr, "run %d derived=%v hash=%016x steps=%d nontrivial=%v faults=%v\n", i, isDerived, out.Res.Hash, out.Res.Steps, out.NonTrivial, out.Faults)
+				fmt.Fprintf(os.Stderr, "run %d derived=%v hash=%016x steps=%d nontrivial=%v faults=%v sites=%v\n", i, isDerived, out.Res.Hash, out.Res.Steps, out.NonTrivial, out.Faults, out.Res.SiteHits)
 			}
 			if job.Mode == "hashes" {
 				cls := ""
